@@ -54,6 +54,18 @@ def run_case(c):
     put("spearman", lambda: enc.arr(_climate("SpearmanClimateNetwork", data).similarity_measure()))
     put("tsonis", lambda: enc.arr(_climate("TsonisClimateNetwork", data).correlation()))
     put("partial", lambda: enc.arr(_climate("PartialCorrelationClimateNetwork", data).similarity_measure()))
+    # binned mutual information of the climate network (histogram kernel over all pairs): of the data and of
+    # the reordered data set (a separate shared data object)
+    put("mi", lambda: enc.arr(_climate("MutualInfoClimateNetwork", data).similarity_measure()))
+
+    def mi_perm():
+        import pyunicorn.climate as cl
+        from pyunicorn.core import GeoGrid
+        grid = GeoGrid(np.arange(float(T)), np.linspace(0.0, 20.0, N), np.linspace(0.0, 40.0, N), silence_level=3)
+        cd = cl.ClimateData(data[:, [2, 0, 1]].copy(), grid, 1, silence_level=3)
+        return enc.arr(cl.MutualInfoClimateNetwork(cd, threshold=0.1, winter_only=False,
+                                                   silence_level=3).similarity_measure())
+    put("mi_perm", mi_perm)
     # Derive: positive affine map of every series, and a reordering of the series
     aff = data * np.array([2.0, 0.5, 3.0])[None, :] + np.array([1.0, -4.0, 0.25])[None, :]
     put("all_aff", lambda: enc.arr(CouplingAnalysis(aff, silence_level=3).cross_correlation(tau_max=tm, lag_mode="all")))
@@ -76,7 +88,7 @@ def run_case(c):
     if max(orig.max(), surr.max()) > min(orig.min(), surr.min()):
         put("tmi2", lambda: enc.arr(Surrogates.test_mutual_information(orig.copy(), surr.copy(), n_bins=2)))
         put("tmi4", lambda: enc.arr(Surrogates.test_mutual_information(orig.copy(), surr.copy(), n_bins=4)))
-    for key in ("tpear", "tmi2", "tmi4", "partial"):
+    for key in ("tpear", "tmi2", "tmi4", "partial", "mi", "mi_perm"):
         o.setdefault(key, [[0] * 3] * 3)
     for key in ("all", "maxv", "maxl", "symv", "syml", "gauss", "pure0", "tsonis", "spearman", "all_aff", "all_perm",
                 "all_big", "pure0_big"):
